@@ -1,7 +1,8 @@
 import DoviModel.Model.Editor
+import DoviModel.Proofs.EditGenProof
 /-! # C09 — the RPU editor applies exactly the configured edits to exactly the configured frames -/
 namespace Dovi.C09
-open Dovi Dovi.Editor
+open Dovi Dovi.Editor Dovi.EditGenProof
 
 /-- the empty config does nothing before encoding: every frame is kept, in order -/
 theorem execute_empty (rpus : List (Option Rpu)) : execute {} rpus = .ok rpus := by
@@ -64,5 +65,311 @@ theorem duplicate_length (src off len : Nat) (rest : List (Nat × Nat × Nat)) (
       simp at hc
       exact hc.2
     simp [List.length_take, List.length_drop]; omega
+
+/-! ## (a) frame accounting -/
+
+/-- **edit_length** — a successful run of the editor writes exactly `input − removed + duplicated` NALs, where
+`removed` is the number of distinct in-range positions listed in `remove` (`removedCount`) and `duplicated` the sum
+of the `length` fields of the `duplicate` entries (`dupTotal`): no frame disappears silently. For every config and
+every input list (the model's encoder fails as a whole when one RPU cannot be written; see the report for the
+`filter_map(Result::ok)` in the real encoder). -/
+theorem edit_length (c : Config) (rpus : List Rpu) (out : List Bytes) (h : edit c rpus = .ok out) :
+    out.length = rpus.length - removedCount (c.remove.getD []) rpus.length + dupTotal (c.duplicate.getD []) := by
+  have h1 := edit_length_add c rpus out h
+  have h2 := removedCount_le (c.remove.getD []) rpus.length
+  omega
+
+/-- before encoding: the list keeps its length, and a position is empty afterwards iff it was empty before or
+is listed in `remove` — no pass other than `remove` drops a frame -/
+theorem execute_keeps_frames (c : Config) (l out : List (Option Rpu)) (h : execute c l = .ok out) :
+    out.length = l.length ∧ ∀ (j : Nat) (x : Option Rpu), l[j]? = some x →
+      ∃ y, out[j]? = some y ∧ y.isSome = (x.isSome && !removed (c.remove.getD []) j) := by
+  have := execute_shape c l out h
+  exact ⟨this.1, fun j x hx => by simpa using this.2 j x hx⟩
+
+/-- non-vacuity: a three-frame list, frame 1 removed, frame 0 duplicated twice at the end: 3 − 1 + 2 = 4 -/
+example :
+    let c : Config := { remove := some ["1"], duplicate := some [(0, 2, 2)] }
+    removedCount (c.remove.getD []) 3 = 1 ∧ dupTotal (c.duplicate.getD []) = 2 ∧
+    (execute c [some {}, some {}, some {}]).isOk = true := by decide
+
+/-! ## (d) invalid input is an error, never a panic -/
+
+/-- **invalid_is_error_not_panic** — for every config and every list the editor model before encoding
+(`EditConfig::execute`: remove, per-frame operations, scene cuts, active area, source replacement) returns a list or
+an error, never a panic -/
+theorem invalid_is_error_not_panic (c : Config) (l : List (Option Rpu)) :
+    (∃ out, execute c l = .ok out) ∨ execute c l = .error := by
+  have := execute_np c l
+  cases h : execute c l with
+  | ok out => exact Or.inl ⟨out, rfl⟩
+  | error => exact Or.inr rfl
+  | panic => exact absurd h this
+
+/-- … and the whole editor (with encoding and duplication) can panic only inside the RPU writer, on a frame that
+`execute` produced (the writer's panics are the subject of C03/C08) -/
+theorem edit_panics_only_in_writer (c : Config) (rpus : List Rpu) (h : edit c rpus = .panic) :
+    ∃ out r, execute c (rpus.map some) = .ok out ∧ some r ∈ out ∧ writeRpu r = .panic :=
+  edit_panic c rpus h
+
+/-- an active-area range that ends beyond the list, is inverted, or names an unknown preset is an error -/
+theorem active_area_range_errors (ps : List Preset) (s e id : Nat) (k : String) (rest : List (String × Nat))
+    (rpus : List (Option Rpu)) (hall : k.toLower ≠ "all") (ht : rangeTuple k = some (s, e))
+    (hbad : rpus.length ≤ e ∨ e < s ∨ ps.find? (fun p => p.id == id) = none) :
+    activeAreaRanges ps ((k, id) :: rest) rpus = .error := by
+  unfold activeAreaRanges
+  simp only [beq_iff_eq, hall, if_false, ht]
+  by_cases he : e ≥ rpus.length
+  · simp [he]
+  · by_cases hse : s ≤ e
+    · rcases hbad with h | h | h
+      · omega
+      · omega
+      · simp [he, hse, h]
+    · simp [he, hse]
+
+/-- a single `remove` index beyond the list is an error -/
+theorem remove_index_out_of_range (k : String) (i : Nat) (rest : List String) (rpus : List (Option Rpu))
+    (hk : k.toList.contains '-' = false) (hp : parseUsize k = some i) (hi : rpus.length ≤ i) :
+    removeFrames (k :: rest) rpus = .error := by
+  have hk' : ¬ ('-' ∈ k.toList) := by simpa using hk
+  have : ¬ i < rpus.length := by omega
+  simp [removeFrames, hk', hp, this]
+
+/-- a `duplicate` entry whose source or offset is outside the (current) list is an error -/
+theorem duplicate_out_of_bounds (src off len : Nat) (rest : List (Nat × Nat × Nat)) (data : List Bytes)
+    (h : data.length ≤ src ∨ data.length < off) : duplicateAll ((src, off, len) :: rest) data = .error := by
+  unfold duplicateAll
+  have : (decide (src < data.length) && decide (off ≤ data.length)) = false := by
+    rcases h with h | h
+    · have : ¬ src < data.length := by omega
+      simp [this]
+    · have : ¬ off ≤ data.length := by omega
+      simp [this]
+  simp [this]
+
+/-- all duplications together add exactly the sum of their lengths (any number of entries) -/
+theorem duplicate_length_all (dups : List (Nat × Nat × Nat)) (data out : List Bytes)
+    (h : duplicateAll dups data = .ok out) : out.length = data.length + dupTotal dups :=
+  duplicateAll_length dups data out h
+
+/-! ## (c) ranges are inclusive, 0-based positions of the input list -/
+
+/-- **ranges_inclusive** (scene cuts) — a valid range entry `a-b` sets the flag on exactly the present frames at
+positions `a..b` inclusive (positions are those of the input list: removed frames keep their slot) and leaves
+every other position alone -/
+theorem ranges_inclusive (k : String) (v : Bool) (a b : Nat) (l : List (Option Rpu))
+    (hk : k.toLower ≠ "all") (ht : rangeTuple k = some (a, b)) (hab : a ≤ b) (hb : b < l.length) :
+    ∃ out, sceneCutRanges [(k, v)] l = .ok out ∧ out.length = l.length ∧
+      ∀ (j : Nat) (x : Option Rpu), l[j]? = some x →
+        out[j]? = some (if a ≤ j ∧ j ≤ b then x.map (setCut v) else x) :=
+  sceneCutRanges_single k v a b l hk ht hab hb
+
+/-- **ranges_inclusive** (active area) — a valid range entry `a-b` with a known preset sets the preset's offsets
+on exactly the present frames at positions `a..b` inclusive -/
+theorem ranges_inclusive_active_area (ps : List Preset) (k : String) (id : Nat) (p : Preset) (a b : Nat)
+    (l : List (Option Rpu)) (hk : k.toLower ≠ "all") (ht : rangeTuple k = some (a, b)) (hab : a ≤ b)
+    (hb : b < l.length) (hp : ps.find? (fun p => p.id == id) = some p) :
+    ∃ out, activeAreaRanges ps [(k, id)] l = .ok out ∧ out.length = l.length ∧
+      ∀ (j : Nat) (x : Option Rpu), l[j]? = some x →
+        (¬ (a ≤ j ∧ j ≤ b) → out[j]? = some x) ∧
+        (a ≤ j ∧ j ≤ b → x = none → out[j]? = some none) ∧
+        (a ≤ j ∧ j ≤ b → ∀ r, x = some r → ∃ r', setOffsets r p = .ok r' ∧ out[j]? = some (some r')) :=
+  activeAreaRanges_single ps k id p a b l hk ht hab hb hp
+
+/-- any number of scene-cut entries: position `j` gets exactly the entries whose range contains `j`, in map order -/
+theorem scene_cuts_frame_local (edits : List (String × Bool)) (l out : List (Option Rpu))
+    (h : sceneCutRanges edits l = .ok out) :
+    out.length = l.length ∧ ∀ (j : Nat) (x : Option Rpu), l[j]? = some x →
+      out[j]? = some (x.map (scFrame edits j)) := by
+  have hs := sceneCutRanges_spec edits l out h
+  refine ⟨hs.1, ?_⟩
+  intro j x hx
+  obtain ⟨y, hy, hl⟩ := hs.2 j x hx
+  rw [hy]
+  cases x with
+  | none => simp [Lift] at hl; subst hl; rfl
+  | some r =>
+    obtain ⟨r', hr', rfl⟩ := hl
+    simp only [Nat.zero_add] at hr'
+    injection hr' with hr'; subst hr'; rfl
+
+/-- the key texts the tool's users write: a decimal index lists exactly that position, `a-b` exactly the
+positions `a..b` inclusive (decimal printer / `splitOn("-")` / `parse::<usize>()` round trip, proved) -/
+theorem remove_index_text (i j : Nat) (hi : i < 2 ^ 64) : removedBy (toString i) j = (i == j) :=
+  removedBy_index_text i j hi
+
+theorem remove_range_text (a b j : Nat) (ha : a < 2 ^ 64) (hb : b < 2 ^ 64) :
+    removedBy (Str.fmtKey a b) j = (decide (a ≤ j) && decide (j ≤ b)) :=
+  removedBy_range_text a b j ha hb
+
+theorem range_key_text (a b j : Nat) (ha : a < 2 ^ 64) (hb : b < 2 ^ 64) :
+    coversKey (Str.fmtKey a b) j ↔ a ≤ j ∧ j ≤ b :=
+  coversKey_range_text a b j ha hb
+
+/-- non-vacuity of `ranges_inclusive`: the key `"1-2"` (as printed by `Str.fmtKey 1 2`) on a four-slot list with a
+removed frame in slot 1 -/
+example : ∃ out, sceneCutRanges [(Str.fmtKey 1 2, true)] [some ({} : Rpu), none, some {}, some {}] = .ok out ∧
+    out.length = 4 ∧ out[0]? = some (some ({} : Rpu)) ∧ out[1]? = some none ∧
+    out[2]? = some (some (setCut true ({} : Rpu))) := by
+  obtain ⟨out, h1, h2, h3⟩ := ranges_inclusive (Str.fmtKey 1 2) true 1 2 [some ({} : Rpu), none, some {}, some {}]
+    (Str.fmtKey_not_all 1 2) (Str.rangeTuple_fmtKey 1 2 (by decide) (by decide)) (by decide) (by decide)
+  refine ⟨out, h1, h2, ?_, ?_, ?_⟩
+  · simpa using h3 0 (some {}) rfl
+  · simpa using h3 1 none rfl
+  · simpa using h3 2 (some {}) rfl
+
+/-! ## (b) frame-local semantics: the documented pass order, and untouched frames -/
+
+/-- **edit_semantics** — the editor's list result, frame by frame (config without `source_rpu`): the length is
+kept; position `j` is empty iff it was empty or is listed in `remove`; otherwise it holds `frameSem c j r` =
+per-frame operations (`executeSingle`), then the scene-cut entries covering `j`, then the active-area entries
+covering `j` — the documented order remove → per-frame → scene cuts → active area -/
+theorem edit_semantics (c : Config) (hsrc : c.source = none) (l out : List (Option Rpu))
+    (h : execute c l = .ok out) :
+    out.length = l.length ∧ ∀ (j : Nat) (x : Option Rpu), l[j]? = some x →
+      (removed (c.remove.getD []) j = true → out[j]? = some none) ∧
+      (x = none → out[j]? = some none) ∧
+      (removed (c.remove.getD []) j = false → ∀ r, x = some r →
+         ∃ r', frameSem c j r = .ok r' ∧ out[j]? = some (some r')) := by
+  have hs := execute_frame c hsrc l out h
+  refine ⟨hs.1, ?_⟩
+  intro j x hx
+  obtain ⟨y, hy, hl⟩ := hs.2 j x hx
+  simp only [Nat.zero_add] at hl
+  rw [hy]
+  refine ⟨?_, ?_, ?_⟩
+  · intro hr; simp only [hr, if_true] at hl; rw [hl]
+  · intro hx0; subst hx0
+    by_cases hr : removed (c.remove.getD []) j = true
+    · simp only [hr, if_true] at hl; rw [hl]
+    · simp only [hr, Bool.false_eq_true, if_false, Lift] at hl; rw [hl]
+  · intro hr r hxr; subst hxr
+    simp only [hr, Bool.false_eq_true, if_false] at hl
+    obtain ⟨r', hr', rfl⟩ := hl
+    exact ⟨r', hr', rfl⟩
+
+/-- **edit_frame_local** — under a config without per-frame global options (`Plain`: only `remove`, range-keyed
+scene cuts / active-area edits, `duplicate`) and without `source_rpu`, a present frame that is not listed in
+`remove` and lies outside every configured range is returned unchanged (equal to the input RPU), at its position -/
+theorem edit_frame_local (c : Config) (hp : Plain c) (hsrc : c.source = none) (l out : List (Option Rpu))
+    (h : execute c l = .ok out) (j : Nat) (r : Rpu) (hj : l[j]? = some (some r))
+    (hrem : removed (c.remove.getD []) j = false)
+    (hsc : ∀ e, c.sceneCuts = some e → ∀ kv ∈ e, ¬ coversKey kv.1 j)
+    (haa : ∀ e, c.aaEdits = some e → ∀ kv ∈ e, ¬ coversKey kv.1 j) : out[j]? = some (some r) := by
+  obtain ⟨r', hr', ho⟩ := (edit_semantics c hsrc l out h).2 j _ hj |>.2.2 hrem r rfl
+  rw [ho]
+  unfold frameSem at hr'
+  rw [executeSingle_plain c hp r] at hr'
+  simp only [Res.bind] at hr'
+  have h1 : scFrame (scEdits c) j r = r := by
+    apply scFrame_nocover
+    intro kv hkv
+    unfold scEdits at hkv
+    cases hs : c.sceneCuts with
+    | none => simp [hs] at hkv
+    | some e => simp only [hs] at hkv; exact hsc e hs kv (asMap_sub _ _ hkv)
+  rw [h1] at hr'
+  have h2 : r' = r := by
+    apply aaFrame_nocover _ _ _ _ _ ?_ hr'
+    intro kv hkv
+    unfold aaEditsOf at hkv
+    cases ha : c.hasActiveArea with
+    | false => simp [ha] at hkv
+    | true =>
+      cases he : c.aaEdits with
+      | none => simp [ha, he] at hkv
+      | some e =>
+        cases hps : c.presets with
+        | none => simp [ha, he, hps] at hkv
+        | some ps => simp only [ha, he, hps, if_true] at hkv; exact haa e he kv (asMap_sub _ _ hkv)
+  rw [h2]
+
+/-- **position and bytes** — same hypotheses, no `duplicate`: in the written file the frame's NAL (`7C 01` +
+the escaped output of the RPU writer on the *input* RPU) sits at the input position minus the number of removed
+positions before it -/
+theorem edit_frame_position (c : Config) (hp : Plain c) (hsrc : c.source = none) (hdup : c.duplicate = none)
+    (rpus : List Rpu) (data : List Bytes) (h : edit c rpus = .ok data) (j : Nat) (hj : j < rpus.length)
+    (hrem : removed (c.remove.getD []) j = false)
+    (hsc : ∀ e, c.sceneCuts = some e → ∀ kv ∈ e, ¬ coversKey kv.1 j)
+    (haa : ∀ e, c.aaEdits = some e → ∀ kv ∈ e, ¬ coversKey kv.1 j) :
+    ∃ o, writeRpu rpus[j] = .ok o ∧ data[j - removedCount (c.remove.getD []) j]? = some (nalOf o) := by
+  unfold edit at h
+  simp only [bind_ok_iff, hdup] at h
+  obtain ⟨out, h1, d, h2, h3⟩ := h
+  injection h3 with h3; subst h3
+  have hin : (rpus.map some)[j]? = some (some rpus[j]) := by simp [hj]
+  have hout := edit_frame_local c hp hsrc _ out h1 j rpus[j] hin hrem hsc haa
+  obtain ⟨o, ho, hd⟩ := encodeAll_get out d h2 j rpus[j] hout
+  have hc := countP_take_shape _ rpus out (execute_shape c _ _ h1) j (by omega)
+  refine ⟨o, ho, ?_⟩
+  have : j - removedCount (c.remove.getD []) j = (out.take j).countP Option.isSome := by omega
+  rw [this]; exact hd
+
+/-- one `duplicate` entry moves positions as a splice: before `off` unchanged, then `len` copies of the source
+NAL, then the rest shifted up by `len` -/
+theorem duplicate_positions (src off len : Nat) (data out : List Bytes)
+    (h : duplicateAll [(src, off, len)] data = .ok out) (p : Nat) :
+    out[p]? = if p < off then data[p]? else if p < off + len then some (data.getD src []) else data[p - len]? := by
+  unfold duplicateAll at h
+  split at h
+  · cases h
+  · rename_i hc
+    have ho : off ≤ data.length := by simp at hc; exact hc.2
+    simp only [duplicateAll] at h
+    injection h with h; subst h
+    exact splice_get data off len _ p ho
+
+/-! ## level replacement from `source_rpu` -/
+
+/-- **source_alignment** — `replace_from_rpus`, frame by frame: the present frame at position `j` takes its levels
+from the source frame whose index is the number of *present* frames before `j` — the remaining frames are zipped
+with the source list from its start — and is left alone when the source list is exhausted. Without `remove`
+this is source frame `j`; with `remove` the source list is the list for the remaining frames (see the examples below). -/
+theorem source_alignment (lv : List Nat) (l out : List (Option Rpu)) (src : List Rpu)
+    (h : replaceFromSource lv l src = .ok out) :
+    out.length = l.length ∧ ∀ (j : Nat) (x : Option Rpu), l[j]? = some x →
+      (x = none → out[j]? = some none) ∧
+      (∀ r, x = some r → ∃ r', out[j]? = some (some r') ∧
+         match src[(l.take j).countP Option.isSome]? with
+         | some s => r.replaceLevelsFrom s lv = .ok r'
+         | none => r' = r) :=
+  replaceFromSource_spec lv l out src h
+
+/-- `remove` together with `source_rpu` (repaired defect, /repo d9dcc39): the source list pairs with the frames
+that remain, so its length must be the remaining count; with frame 0 removed, frame 1 receives the L5 of source
+frame 0 (`[1,1,1,1]`) from a one-entry source list … -/
+example :
+    let f (v : Int) : Rpu :=
+      { vdr_dm_data := some { cmv29 := some { num_ext_blocks := 1, blocks := [{ level := 5, length := 7, vals := [v, v, v, v] }] } } }
+    let c : Config := { remove := some ["0"], source := some [f 1], levels := some [5] }
+    (match execute c [some (f 0), some (f 0)] with
+     | .ok out => out.map (Option.map Dovi.Export.l5Of)
+     | _ => []) = [none, some [1, 1, 1, 1]] := by decide
+
+/-- … and a source list of the original length (which used to be accepted and applied shifted) is an error -/
+example :
+    let f (v : Int) : Rpu :=
+      { vdr_dm_data := some { cmv29 := some { num_ext_blocks := 1, blocks := [{ level := 5, length := 7, vals := [v, v, v, v] }] } } }
+    let c : Config := { remove := some ["0"], source := some [f 1, f 2], levels := some [5] }
+    execute c [some (f 0), some (f 0)] = .error := by decide
+
+/-- `Plain` is satisfiable by a non-trivial config: remove + range scene cuts + range active-area edits + duplicate -/
+example : Plain { remove := some ["0", "3-4"], sceneCuts := some [("1-2", true)], hasActiveArea := true,
+                  presets := some [⟨0, 0, 0, 138, 138⟩], aaEdits := some [("5-9", 0)],
+                  duplicate := some [(0, 1, 2)] } := by
+  refine ⟨rfl, rfl, rfl, rfl, rfl, rfl, rfl, rfl, rfl, rfl, rfl, ?_, ?_⟩
+  · intro e he kv hkv
+    injection he with he; subst he
+    simp only [List.mem_singleton] at hkv; subst hkv
+    intro hall
+    have := congrArg String.toList hall
+    simp [String.toLower, String.toList_map] at this
+  · intro e he kv hkv
+    injection he with he; subst he
+    simp only [List.mem_singleton] at hkv; subst hkv
+    intro hall
+    have := congrArg String.toList hall
+    simp [String.toLower, String.toList_map] at this
 
 end Dovi.C09
